@@ -107,6 +107,50 @@ pub fn root_seed_and_id<H: HashChain>(
     Some((seed, root.lms_tree_identifier))
 }
 
+/// Seed derivation below a tree: for a tree given by `(seed, I)` and one of its leaves `q`, the
+/// seed and identifier of the child tree under that leaf
+/// (`generate_child_seed_and_lms_tree_identifier`), the randomizer derived from `(seed, I, q)`
+/// (`generate_signature_randomizer`) and the first and last chain start value of leaf `q`'s
+/// one-time key for an LM-OTS type (`lm_ots::keygen::generate_private_key`). No tree is built.
+#[allow(clippy::type_complexity)]
+pub fn derive_below<H: HashChain>(
+    seed: &[u8],
+    lms_tree_identifier: &[u8],
+    q: u32,
+    ots_type_id: u32,
+) -> Option<(
+    ArrayVec<[u8; MAX_HASH_SIZE]>,
+    LmsTreeIdentifier,
+    ArrayVec<[u8; MAX_HASH_SIZE]>,
+    ArrayVec<[u8; MAX_HASH_SIZE]>,
+    ArrayVec<[u8; MAX_HASH_SIZE]>,
+)> {
+    use crate::hss::reference_impl_private_key::{
+        generate_child_seed_and_lms_tree_identifier, generate_signature_randomizer,
+    };
+    let mut s = Seed::<H>::default();
+    if seed.len() != s.len() || lms_tree_identifier.len() != 16 {
+        return None;
+    }
+    s.as_mut_slice().copy_from_slice(seed);
+    let mut i = LmsTreeIdentifier::default();
+    i.copy_from_slice(lms_tree_identifier);
+    let parent = SeedAndLmsTreeIdentifier::new(&s, &i);
+    let child = generate_child_seed_and_lms_tree_identifier::<H>(&parent, &q);
+    let randomizer = generate_signature_randomizer::<H>(&parent, &q);
+    let p = LmotsAlgorithm::get_from_type::<H>(ots_type_id)?;
+    let ots = crate::lm_ots::keygen::generate_private_key(i, q.to_be_bytes(), s.clone(), p);
+    let first = ots.key.0.first()?.clone();
+    let last = ots.key.0.last()?.clone();
+    Some((
+        ArrayVec::try_from(child.seed.as_slice()).ok()?,
+        child.lms_tree_identifier,
+        randomizer,
+        first,
+        last,
+    ))
+}
+
 // ---------------------------------------------------------------------------------------------
 // Secret lifecycle probes (property "secret-bearing values are wiped").
 // ---------------------------------------------------------------------------------------------
